@@ -85,6 +85,8 @@ class Calibration(TorchFunctionMode):
         if streamline:
             self.modules_qactivations = {}
         self.debug = debug
+        # One pair of hook handles per entry: a mode object can be entered again while it is active
+        self.hook_handles = []
 
     def __torch_function__(self, func, types, args=(), kwargs=None):
         kwargs = kwargs if kwargs is not None else {}
@@ -105,13 +107,17 @@ class Calibration(TorchFunctionMode):
 
     def __enter__(self):
         super().__enter__()
-        self.pre_handle = register_module_forward_pre_hook(self.calibrate_input)
-        self.post_handle = register_module_forward_hook(self.calibrate_output)
+        self.hook_handles.append(
+            (
+                register_module_forward_pre_hook(self.calibrate_input),
+                register_module_forward_hook(self.calibrate_output),
+            )
+        )
 
     def __exit__(self, exc_type, exc_val, exc_tb):
         super().__exit__(exc_type, exc_val, exc_tb)
-        self.pre_handle.remove()
-        self.post_handle.remove()
+        for handle in self.hook_handles.pop():
+            handle.remove()
 
     def calibrate_input(self, module: torch.nn.Module, input):
         if isinstance(module, QModuleMixin) and module.activation_qtype is not None:
